@@ -119,6 +119,111 @@ theorem lateral_impl_eq_seq {ε} (J : LatJoin) (lw : Nat) (chunks : List (List R
   rw [hd, lateral_run_eq_seq]
   simp
 
+/-! ### several left records fail, with different errors
+
+  With one worker the error of the first failing left record is reported.  With several workers the Go code leaves
+  open which worker's error arrives first (`gm.SetError` keeps the first one set); every worker stops at ITS first
+  failing record, so the report is the first error of one of the chunks.  The model reports the one of the first
+  failing chunk — one of the allowed reports; whether the query fails at all does not depend on the chunking. -/
+
+/-- the errors the Go code may report: the first error of some worker's range -/
+def latMayReport {ε η} (chunks : List (List Row)) (fn : Row → Except ε (η × List Row)) (e : ε) : Prop :=
+  ∃ ch, ch ∈ chunks ∧ mapE fn ch = .error e
+
+/-- the model's report is one of them -/
+theorem lateral_error_is_allowed {ε η} (h0 : η) (chunks : List (List Row)) (fn : Row → Except ε (η × List Row)) (e : ε)
+    (he : latRun h0 chunks fn = .error e) : latMayReport chunks fn e := by
+  unfold latRun at he
+  induction chunks generalizing e with
+  | nil => simp [latWorkers] at he
+  | cons ch rest ih =>
+    have key : ∀ start, (∃ x, latWorkers fn start (ch :: rest) = .error x) →
+        ∀ x, latWorkers fn start (ch :: rest) = .error x → latMayReport (ch :: rest) fn x := by
+      intro start _ x hx
+      rw [latWorkers_eq] at hx
+      simp only [List.flatten_cons, mapE_append] at hx
+      cases h1 : mapE fn ch with
+      | error e1 =>
+        rw [h1] at hx
+        simp only [Except.error.injEq] at hx
+        exact ⟨ch, List.mem_cons_self, hx ▸ h1⟩
+      | ok ps =>
+        rw [h1] at hx
+        simp only at hx
+        cases h2 : mapE fn rest.flatten with
+        | ok qs => rw [h2] at hx; cases hx
+        | error e2 =>
+          rw [h2] at hx
+          simp only [Except.error.injEq] at hx
+          subst hx
+          have hrest : latRun h0 rest fn = .error e2 := by
+            unfold latRun
+            rw [latWorkers_eq, h2]
+          obtain ⟨c, hc, hce⟩ := ih e2 (by unfold latRun at hrest; exact hrest)
+          exact ⟨c, List.mem_cons_of_mem _ hc, hce⟩
+    cases hw : latWorkers fn 0 (ch :: rest) with
+    | ok p => rw [hw] at he; obtain ⟨a, b⟩ := p; cases he
+    | error x =>
+      rw [hw] at he
+      simp only [Except.error.injEq] at he
+      subst he
+      exact key 0 ⟨x, hw⟩ x hw
+
+/-- every allowed report is the error of a left record before which, in its worker's range, no record fails -/
+theorem lateral_allowed_error_spec {ε η} (chunks : List (List Row)) (fn : Row → Except ε (η × List Row)) (e : ε) :
+    latMayReport chunks fn e ↔
+      ∃ ch pre l post, ch ∈ chunks ∧ ch = pre ++ l :: post ∧ (∀ y, y ∈ pre → ∃ b, fn y = .ok b) ∧ fn l = .error e := by
+  unfold latMayReport
+  constructor
+  · rintro ⟨ch, hch, he⟩
+    obtain ⟨pre, l, post, h1, h2, h3⟩ := (mapE_error_iff fn ch e).mp he
+    exact ⟨ch, pre, l, post, hch, h1, h2, h3⟩
+  · rintro ⟨ch, pre, l, post, hch, h1, h2, h3⟩
+    exact ⟨ch, hch, (mapE_error_iff fn ch e).mpr ⟨pre, l, post, h1, h2, h3⟩⟩
+
+/-- one worker (`--cpu 1`, or fewer records than a worker takes): exactly the first failing left record's error -/
+theorem lateral_single_worker_error {ε η} (L : List Row) (fn : Row → Except ε (η × List Row)) (e : ε) :
+    latMayReport [L] fn e ↔ mapE fn L = .error e := by
+  simp [latMayReport]
+
+/-- whether the join fails does not depend on the chunking: it fails iff the sub-select fails for some left record -/
+theorem lateral_fails_iff_some_record_fails {ε η} (h0 : η) (chunks : List (List Row)) (fn : Row → Except ε (η × List Row)) :
+    (∃ e, latRun h0 chunks fn = .error e) ↔ ∃ l e, l ∈ chunks.flatten ∧ fn l = .error e := by
+  rw [lateral_run_eq_seq]
+  unfold latSeq
+  constructor
+  · rintro ⟨e, he⟩
+    cases hm : mapE fn chunks.flatten with
+    | ok ps => rw [hm] at he; cases he
+    | error e' =>
+      obtain ⟨pre, l, post, h1, _, h3⟩ := (mapE_error_iff fn _ e').mp hm
+      exact ⟨l, e', by rw [h1]; simp, h3⟩
+  · rintro ⟨l, e, hl, hf⟩
+    cases hm : mapE fn chunks.flatten with
+    | error e' => exact ⟨e', rfl⟩
+    | ok ps =>
+      exfalso
+      have : ∀ (L : List Row) (qs : List (η × List Row)), mapE fn L = .ok qs → ∀ x, x ∈ L → ∃ b, fn x = .ok b := by
+        intro L
+        induction L with
+        | nil => intro _ _ x hx; cases hx
+        | cons a as ih =>
+          intro qs hq x hx
+          simp only [mapE] at hq
+          cases ha : fn a with
+          | error e1 => rw [ha] at hq; cases hq
+          | ok b =>
+            rw [ha] at hq
+            cases hr : mapE fn as with
+            | error e2 => rw [hr] at hq; cases hq
+            | ok bs =>
+              rcases List.mem_cons.mp hx with rfl | hx
+              · exact ⟨b, ha⟩
+              · exact ih bs hr x hx
+      obtain ⟨b, hb⟩ := this _ ps hm l hl
+      rw [hf] at hb
+      cases hb
+
 /-- against the property's full statement (header included): equal whenever there is a left record -/
 theorem lateral_spec_nonempty {ε} (J : LatJoin) (lw w : Nat) (chunks : List (List Row)) (sub : Row → Nat × List Row)
     (hd : lateralRejects J.dir = false) (hw : ∀ l, (sub l).1 = w) (hne : chunks.flatten ≠ []) :
@@ -492,6 +597,10 @@ example : latImpl (ε := Unit) ⟨.cross, .absent, none⟩ 1 [[[cI 1], [cI 2]], 
 example : latImpl ⟨.inner, .absent, none⟩ 1 [[[cI 1], [cI 2]], [[cI 3]], [[cI 4]]]
       (fun l => if l = [cI 3] then .error "e3" else if l = [cI 4] then .error "e4" else .ok (1, [l]))
     = .error (.sub "e3") := by decide
+-- two workers fail differently: the model reports the first chunk's error; the second chunk's is an allowed report too
+example : latMayReport (η := Nat) [[[cI 1], [cI 3]], [[cI 4]]]
+      (fun l => if l = [cI 3] then .error "e3" else if l = [cI 4] then .error "e4" else .ok (1, [l])) "e4" :=
+  ⟨[[cI 4]], by simp, by decide⟩
 example : latImpl (ε := Unit) ⟨.outer, .full, none⟩ 1 [[[cI 1]]] (fun l => .ok (1, [l])) = .error .incorrectLateralUsage := by
   decide
 example : (latImpl (ε := Unit) ⟨.outer, .left, none⟩ 2 [] (fun l => .ok (1, [l]))) = .ok (0, []) := by decide
